@@ -514,6 +514,24 @@ func headerDamage(r *Run, gf *genFileT, desc map[string]any) {
 		mut[k] ^= byte(1 + r.Rng.Intn(255))
 		try("wrong-magic", mut, "err", 0)
 	}
+	// ... and every single-bit flip of the magic, other version bytes, other letter cases
+	var magics [][4]byte
+	for bit := 0; bit < 32; bit++ {
+		m := [4]byte{'O', 'b', 'j', 1}
+		m[bit/8] ^= 1 << uint(bit%8)
+		magics = append(magics, m)
+	}
+	magics = append(magics, [4]byte{'O', 'b', 'j', 0}, [4]byte{'O', 'b', 'j', 2}, [4]byte{'O', 'b', 'j', 0xff}, [4]byte{'o', 'b', 'j', 1},
+		[4]byte{'O', 'B', 'J', 1}, [4]byte{0, 0, 0, 0}, [4]byte{'O', 'b', 'j', '1'}, [4]byte{1, 'j', 'b', 'O'})
+	pick := r.Rng.Perm(len(magics))[:6]
+	if r.Thorough() || len(gf.file) < 400 {
+		pick = r.Rng.Perm(len(magics))
+	}
+	for _, pi := range pick {
+		mut := append([]byte{}, gf.file...)
+		copy(mut, magics[pi][:])
+		try(fmt.Sprintf("wrong-magic:%x", magics[pi]), mut, "err", 0)
+	}
 	// missing schema
 	noSchema := &Container{Codec: c.Codec, Sync: c.Sync, Blocks: c.Blocks}
 	try("missing-schema", containerWithMeta(noSchema, map[string][]byte{"avro.codec": []byte(c.Codec)}), "err", 0)
